@@ -44,6 +44,7 @@ var importMap = map[string]string{
 	"crypto/rand":                      "vrand",
 	"math/rand":                        "vmrand",
 	"math/rand/v2":                     "vmrand2",
+	"maps":                             "vmaps",
 	"github.com/pion/transport/v2/udp": "vudp",
 }
 
@@ -56,6 +57,7 @@ var mustShim = map[string][]string{
 		"ListenUnixgram", "ListenMulticastUDP", "DialUDP", "DialTCP", "DialIP", "DialUnix", "Pipe", "FileConn", "FileListener", "FilePacketConn",
 		"LookupHost", "LookupIP", "LookupAddr", "LookupPort", "LookupCNAME", "LookupSRV", "LookupMX", "LookupNS", "LookupTXT", "Resolver", "DefaultResolver"},
 	"crypto/rand":                      {"Read", "Reader", "Int", "Prime", "Text"},
+	"maps":                             {"Keys", "Values", "All"},
 	"math/rand":                        {"Int", "Intn", "Int31", "Int31n", "Int63", "Int63n", "Uint32", "Uint64", "Float32", "Float64", "ExpFloat64", "NormFloat64", "Perm", "Shuffle", "Read", "Seed"},
 	"math/rand/v2":                     {"Int", "IntN", "Int32", "Int32N", "Int64", "Int64N", "Uint", "UintN", "Uint32", "Uint32N", "Uint64", "Uint64N", "Float32", "Float64", "ExpFloat64", "NormFloat64", "Perm", "Shuffle", "N"},
 	"github.com/pion/transport/v2/udp": {"Listen", "ListenConfig"},
@@ -126,7 +128,20 @@ func main() {
 	}
 	loadShimExports(*vmcDir)
 	cfg.Mode |= packages.NeedImports | packages.NeedDeps
-	roots, err := packages.Load(cfg, ".")
+	// roots: the node package and every other package under pkg/ (the harnesses use some of them
+	// directly - frame, streamwriter, timednetconn - whether or not the node still does), except
+	// the generated dialects
+	patterns := []string{"."}
+	if ents, err := os.ReadDir(filepath.Join(*repo, "pkg")); err == nil {
+		for _, e := range ents {
+			if e.IsDir() && e.Name() != "dialects" && e.Name() != "vmc" {
+				if m, _ := filepath.Glob(filepath.Join(*repo, "pkg", e.Name(), "*.go")); len(m) > 0 {
+					patterns = append(patterns, "./pkg/"+e.Name())
+				}
+			}
+		}
+	}
+	roots, err := packages.Load(cfg, patterns...)
 	if err != nil {
 		die("load: %v", err)
 	}
@@ -141,7 +156,9 @@ func main() {
 			return
 		}
 		seen[p.PkgPath] = true
-		if p.PkgPath != modPath && !strings.HasPrefix(p.PkgPath, modPath+"/") {
+		// (the concurrency helpers of golang.org/x/sync - errgroup, semaphore, singleflight - are
+		// plain Go on top of sync / context and are rewritten like the module's own packages)
+		if p.PkgPath != modPath && !strings.HasPrefix(p.PkgPath, modPath+"/") && !strings.HasPrefix(p.PkgPath, "golang.org/x/sync/") {
 			return
 		}
 		if strings.HasPrefix(p.PkgPath, modPath+"/pkg/dialects") || strings.HasPrefix(p.PkgPath, vmcPath) {
@@ -179,9 +196,13 @@ func main() {
 				continue
 			}
 			var buf bytes.Buffer
+			top, embeds := directives(f)
 			f.Comments = nil
 			if err := format.Node(&buf, token.NewFileSet(), f); err != nil {
 				die("print %s: %v", name, err)
+			}
+			if len(top) > 0 || len(embeds) > 0 {
+				buf = *bytes.NewBuffer(reinsertDirectives(buf.Bytes(), top, embeds))
 			}
 			rel, _ := filepath.Rel(*repo, name)
 			dst := filepath.Join(*out, strings.ReplaceAll(rel, "/", "__"))
@@ -206,6 +227,67 @@ func main() {
 	}
 }
 
+// directives collects what must survive although comments are dropped when a rewritten file is
+// printed: the build constraints at the top of the file and //go:embed lines (per variable).
+func directives(f *ast.File) (top []string, embeds map[string][]string) {
+	embeds = map[string][]string{}
+	for _, cg := range f.Comments {
+		if cg.Pos() < f.Package {
+			for _, c := range cg.List {
+				if strings.HasPrefix(c.Text, "//go:build") || strings.HasPrefix(c.Text, "// +build") {
+					top = append(top, c.Text)
+				}
+			}
+		}
+	}
+	for _, d := range f.Decls {
+		gd, ok := d.(*ast.GenDecl)
+		if !ok || gd.Tok != token.VAR {
+			continue
+		}
+		grab := func(cg *ast.CommentGroup, names []*ast.Ident) {
+			if cg == nil || len(names) == 0 {
+				return
+			}
+			for _, c := range cg.List {
+				if strings.HasPrefix(c.Text, "//go:embed") {
+					embeds[names[0].Name] = append(embeds[names[0].Name], c.Text)
+				}
+			}
+		}
+		for _, sp := range gd.Specs {
+			vs := sp.(*ast.ValueSpec)
+			grab(vs.Doc, vs.Names)
+			if len(gd.Specs) == 1 {
+				grab(gd.Doc, vs.Names)
+			}
+		}
+	}
+	return top, embeds
+}
+
+func reinsertDirectives(src []byte, top []string, embeds map[string][]string) []byte {
+	var out []string
+	if len(top) > 0 {
+		out = append(out, top...)
+		out = append(out, "")
+	}
+	for _, l := range strings.Split(string(src), "\n") {
+		t := strings.TrimSpace(l)
+		for name, ds := range embeds {
+			if strings.HasPrefix(t, "var "+name+" ") || strings.HasPrefix(t, name+" ") && strings.HasPrefix(l, "\t") {
+				indent := l[:len(l)-len(strings.TrimLeft(l, "\t"))]
+				for _, d := range ds {
+					out = append(out, indent+d)
+				}
+				delete(embeds, name)
+			}
+		}
+		out = append(out, l)
+	}
+	return []byte(strings.Join(out, "\n"))
+}
+
 type rewriter struct {
 	pkg     *packages.Package
 	file    *ast.File
@@ -215,11 +297,12 @@ type rewriter struct {
 	changed bool
 	nsel    int
 
-	recvCalls map[*ast.CallExpr]ast.Expr    // generated c.Recv() -> c
-	sendCalls map[*ast.CallExpr][2]ast.Expr // generated c.Send(v) -> c, v
-	argType   map[*ast.CallExpr]types.Type  // type of first argument of close/len/cap (original)
-	rangeType map[*ast.RangeStmt]types.Type
-	regLits   map[*ast.UnaryExpr]bool
+	recvCalls  map[*ast.CallExpr]ast.Expr    // generated c.Recv() -> c
+	sendCalls  map[*ast.CallExpr][2]ast.Expr // generated c.Send(v) -> c, v
+	argType    map[*ast.CallExpr]types.Type  // type of first argument of close/len/cap (original)
+	rangeType  map[*ast.RangeStmt]types.Type
+	regLits    map[*ast.UnaryExpr]bool
+	extraDecls []ast.Decl
 
 	// race mode
 	ptrRecv      bool
@@ -229,11 +312,10 @@ type rewriter struct {
 	skipAcc      map[ast.Expr]bool // address taken / struct-valued inner selector: not an access
 }
 
-// race mode: packages whose memory accesses are instrumented: every rewritten package except
-// the codec packages (pure functions of their arguments on the paths the node uses; their
-// reflection-heavy inner loops would dominate the run time)
+// race mode: memory accesses are instrumented in every rewritten package (the codec packages
+// too: a message.ReadWriter is shared by all channels of a node)
 var tracked = map[string]bool{}
-var untracked = map[string]bool{modPath + "/pkg/message": true, modPath + "/pkg/dialect": true, modPath + "/pkg/x25": true}
+var untracked = map[string]bool{}
 var allPkgs []*packages.Package
 
 // pointerReceivers (race mode): value-receiver methods of struct types that also have
@@ -273,7 +355,7 @@ func (r *rewriter) pointerReceivers() {
 		if _, isStruct := obj.Type().Underlying().(*types.Struct); !isStruct {
 			continue
 		}
-		if valueImplementsSomething(obj.Type()) {
+		if valueImplementsSomething(obj.Type()) || hasConventionalValueMethod(obj.Type()) {
 			// the value type satisfies an interface of the module through its value-receiver
 			// methods (endpoint configurations): pointer receivers would break that
 			continue
@@ -301,6 +383,34 @@ func valueImplementsSomething(t types.Type) bool {
 			if types.Implements(t, it) {
 				return true
 			}
+		}
+	}
+	return false
+}
+
+// isNamedChan: a defined type whose underlying type is a channel.
+func isNamedChan(t types.Type) bool {
+	if t == nil {
+		return false
+	}
+	n, ok := types.Unalias(t).(*types.Named)
+	if !ok {
+		return false
+	}
+	_, isChan := n.Underlying().(*types.Chan)
+	return isChan
+}
+
+// hasConventionalValueMethod: the value type has a method whose name belongs to a widely used
+// interface of the standard library (error, fmt.Stringer, the marshalers, sort.Interface, io):
+// the value may be used through that interface somewhere, so its receivers are left alone.
+func hasConventionalValueMethod(t types.Type) bool {
+	conv := map[string]bool{"Error": true, "String": true, "GoString": true, "Format": true, "MarshalJSON": true, "MarshalText": true,
+		"MarshalBinary": true, "MarshalXML": true, "Len": true, "Less": true, "Swap": true, "Read": true, "Write": true, "Close": true, "Is": true, "Unwrap": true}
+	ms := types.NewMethodSet(t)
+	for i := 0; i < ms.Len(); i++ {
+		if conv[ms.At(i).Obj().Name()] {
+			return true
 		}
 	}
 	return false
@@ -389,9 +499,22 @@ func (r *rewriter) racePre(c *astutil.Cursor) {
 		if inner, ok := unparen(n.X).(*ast.Ident); ok && isAggregate(info.TypeOf(inner)) {
 			r.skipAcc[inner] = true
 		}
+		if inner, ok := unparen(n.X).(*ast.IndexExpr); ok && isAggregate(info.TypeOf(inner)) {
+			r.skipAcc[inner] = true // s[i].f: the selector names the accessed memory
+		}
+	case *ast.SliceExpr:
+		if inner, ok := unparen(n.X).(*ast.IndexExpr); ok {
+			r.skipAcc[inner] = true // s[i][a:b]: no element is accessed
+		}
+		if inner, ok := unparen(n.X).(*ast.SelectorExpr); ok && isAggregate(info.TypeOf(inner)) {
+			r.skipAcc[inner] = true // x.arr[a:b]
+		}
 	case *ast.IndexExpr:
 		if inner, ok := unparen(n.X).(*ast.SelectorExpr); ok && isAggregate(info.TypeOf(inner)) {
 			r.skipAcc[inner] = true
+		}
+		if inner, ok := unparen(n.X).(*ast.IndexExpr); ok && isAggregate(info.TypeOf(inner)) {
+			r.skipAcc[inner] = true // a[i][j]
 		}
 	case *ast.RangeStmt:
 		if n.Tok == token.ASSIGN {
@@ -402,6 +525,138 @@ func (r *rewriter) racePre(c *astutil.Cursor) {
 				r.accW[unparen(n.Value)] = true
 			}
 		}
+	}
+}
+
+// isElemContainer: indexing a value of this type yields an element of a slice or array.
+func isElemContainer(t types.Type) bool {
+	switch u := t.Underlying().(type) {
+	case *types.Slice, *types.Array:
+		return true
+	case *types.Pointer:
+		_, ok := u.Elem().Underlying().(*types.Array)
+		return ok
+	}
+	return false
+}
+
+func isByteSlice(t types.Type) bool {
+	if t == nil {
+		return false
+	}
+	sl, ok := t.Underlying().(*types.Slice)
+	if !ok {
+		return false
+	}
+	b, ok := sl.Elem().Underlying().(*types.Basic)
+	return ok && b.Kind() == types.Uint8
+}
+
+// classifyRaceCall recognises the calls that read or write slice elements without an index
+// expression: the builtins copy / clear / append, encoding/binary's fixed-size accessors, and
+// methods with the io.Reader / io.Writer signature.
+func (r *rewriter) classifyRaceCall(n *ast.CallExpr, out map[*ast.CallExpr]string) {
+	info := r.pkg.TypesInfo
+	if id, ok := n.Fun.(*ast.Ident); ok {
+		if _, isBuiltin := info.Uses[id].(*types.Builtin); isBuiltin {
+			switch id.Name {
+			case "copy":
+				if len(n.Args) == 2 {
+					if b, ok := info.TypeOf(n.Args[1]).Underlying().(*types.Basic); ok && b.Info()&types.IsString != 0 {
+						out[n] = "copystr"
+					} else {
+						out[n] = "copy"
+					}
+				}
+			case "clear":
+				if len(n.Args) == 1 {
+					if _, ok := info.TypeOf(n.Args[0]).Underlying().(*types.Slice); ok {
+						out[n] = "clear"
+					}
+				}
+			case "append":
+				if len(n.Args) >= 2 {
+					if _, ok := info.TypeOf(n.Args[0]).Underlying().(*types.Slice); !ok {
+						return
+					}
+					if n.Ellipsis.IsValid() {
+						if b, ok := info.TypeOf(n.Args[1]).Underlying().(*types.Basic); ok && b.Info()&types.IsString != 0 {
+							out[n] = "appendstr"
+						} else {
+							out[n] = "appendslice"
+						}
+					} else {
+						out[n] = "append"
+					}
+				}
+			}
+		}
+		return
+	}
+	sel, ok := n.Fun.(*ast.SelectorExpr)
+	if !ok {
+		return
+	}
+	fn, ok := info.Uses[sel.Sel].(*types.Func)
+	if !ok {
+		return
+	}
+	if fn.Pkg() != nil && fn.Pkg().Path() == "encoding/binary" && len(n.Args) >= 1 && isByteSlice(info.TypeOf(n.Args[0])) {
+		switch fn.Name() {
+		case "PutUint16":
+			out[n] = "w2"
+		case "PutUint32":
+			out[n] = "w4"
+		case "PutUint64":
+			out[n] = "w8"
+		case "Uint16":
+			out[n] = "r2"
+		case "Uint32":
+			out[n] = "r4"
+		case "Uint64":
+			out[n] = "r8"
+		}
+		return
+	}
+	// x.Read(p) / x.Write(p) with the io signatures: Read may write all of p, Write reads all of p
+	if sig, ok := fn.Type().(*types.Signature); ok && sig.Recv() != nil && sig.Params().Len() == 1 && sig.Results().Len() == 2 && len(n.Args) == 1 && isByteSlice(sig.Params().At(0).Type()) && !n.Ellipsis.IsValid() {
+		switch fn.Name() {
+		case "Read":
+			out[n] = "ioread"
+		case "Write":
+			out[n] = "iowrite"
+		}
+	}
+}
+
+func (r *rewriter) applyRaceCall(c *astutil.Cursor, n *ast.CallExpr, kind string) {
+	site := r.site(n)
+	r.changed = true
+	switch kind {
+	case "copy":
+		c.Replace(call(r.vmc("Copy"), n.Args[0], n.Args[1], site))
+	case "copystr":
+		c.Replace(call(r.vmc("CopyStr"), n.Args[0], n.Args[1], site))
+	case "clear":
+		c.Replace(call(r.vmc("Clear"), n.Args[0], site))
+	case "append":
+		c.Replace(call(r.vmc("Append"), append([]ast.Expr{site}, n.Args...)...))
+	case "appendslice":
+		nc := call(r.vmc("Append"), append([]ast.Expr{site}, n.Args...)...)
+		nc.Ellipsis = 1
+		c.Replace(nc)
+	case "appendstr":
+		c.Replace(call(r.vmc("AppendStr"), site, n.Args[0], n.Args[1]))
+	case "w2", "w4", "w8", "r2", "r4", "r8":
+		fn := "WSn"
+		if kind[0] == 'r' {
+			fn = "RSn"
+		}
+		n.Args[0] = call(r.vmc(fn), n.Args[0], &ast.BasicLit{Kind: token.INT, Value: kind[1:]}, site)
+	case "ioread":
+		n.Args[0] = call(r.vmc("WS"), n.Args[0], site)
+	case "iowrite":
+		n.Args[0] = call(r.vmc("RS"), n.Args[0], site)
 	}
 }
 
@@ -440,6 +695,9 @@ func (r *rewriter) run() bool {
 	if r.race {
 		r.pointerReceivers()
 	}
+	namedChanSpec := map[*ast.TypeSpec]bool{}
+	nilCmpSide := map[*ast.Expr]bool{}
+	namedMake := map[*ast.CallExpr]string{}
 	regKey := map[*ast.IndexExpr]bool{}
 	mapLits := map[*ast.CompositeLit]bool{}
 	markInsert := func(e ast.Expr) {
@@ -463,6 +721,8 @@ func (r *rewriter) run() bool {
 	raceField := map[*ast.SelectorExpr]bool{}
 	raceVar := map[*ast.Ident]bool{}
 	raceMap := map[*ast.IndexExpr]types.Type{}
+	raceElem := map[*ast.IndexExpr]bool{}
+	raceCall := map[*ast.CallExpr]string{}
 	pre := func(c *astutil.Cursor) bool {
 		if r.race {
 			r.racePre(c)
@@ -480,7 +740,14 @@ func (r *rewriter) run() bool {
 					if _, ok := t.Underlying().(*types.Map); ok {
 						raceMap[n] = t
 					}
+					if isElemContainer(t) {
+						if tv, ok := info.Types[n]; ok && tv.Addressable() {
+							raceElem[n] = true
+						}
+					}
 				}
+			case *ast.CallExpr:
+				r.classifyRaceCall(n, raceCall)
 			}
 		}
 		switch n := c.Node().(type) {
@@ -490,12 +757,33 @@ func (r *rewriter) run() bool {
 			}
 		case *ast.IncDecStmt:
 			markInsert(n.X)
+		case *ast.TypeSpec:
+			if _, isChan := n.Type.(*ast.ChanType); isChan && !n.Assign.IsValid() {
+				namedChanSpec[n] = true
+			}
+		case *ast.BinaryExpr:
+			if n.Op == token.EQL || n.Op == token.NEQ {
+				for _, side := range []*ast.Expr{&n.X, &n.Y} {
+					if isNamedChan(info.TypeOf(*side)) {
+						nilCmpSide[side] = true
+					}
+				}
+			}
 		}
 		switch n := c.Node().(type) {
 		case *ast.CallExpr:
 			if id, ok := n.Fun.(*ast.Ident); ok && (id.Name == "close" || id.Name == "len" || id.Name == "cap" || id.Name == "delete") && len(n.Args) >= 1 {
 				if _, isBuiltin := info.Uses[id].(*types.Builtin); isBuiltin {
 					r.argType[n] = info.TypeOf(n.Args[0])
+				}
+			}
+			if id, ok := n.Fun.(*ast.Ident); ok && id.Name == "make" && len(n.Args) >= 1 {
+				if _, isBuiltin := info.Uses[id].(*types.Builtin); isBuiltin && isNamedChan(info.TypeOf(n.Args[0])) {
+					tid, ok := n.Args[0].(*ast.Ident)
+					if !ok {
+						die("%s: unsupported: make of a defined channel type of another package", r.pkg.Fset.Position(n.Pos()))
+					}
+					namedMake[n] = tid.Name
 				}
 			}
 		case *ast.RangeStmt:
@@ -541,7 +829,15 @@ func (r *rewriter) run() bool {
 					n.X = call(r.vmc(fn), n.X, r.site(n))
 					r.changed = true
 				}
+				if raceElem[n] && !r.skipAcc[n] {
+					c.Replace(r.raceWrap(n, r.accW[n], n))
+					return true
+				}
 			case *ast.CallExpr:
+				if kind, ok := raceCall[n]; ok {
+					r.applyRaceCall(c, n, kind)
+					return true
+				}
 				if id, ok := n.Fun.(*ast.Ident); ok && len(n.Args) >= 1 {
 					if _, isBuiltin := info.Uses[id].(*types.Builtin); isBuiltin {
 						if t := r.argType[n]; t != nil {
@@ -575,6 +871,41 @@ func (r *rewriter) run() bool {
 			// every key that enters a map gets its deterministic order id (see vmc.RegKey)
 			ix.Index = call(r.vmc("RegKey"), ix.Index)
 			r.changed = true
+		}
+		if ts, ok := c.Node().(*ast.TypeSpec); ok && namedChanSpec[ts] {
+			// a defined channel type (it may have methods): a struct embedding the controlled
+			// channel, whose operations are promoted; vmcMake_<T> stands for make(T, n)
+			ts.Type = &ast.StructType{Fields: &ast.FieldList{List: []*ast.Field{{Type: ts.Type}}}}
+			star := ts.Type.(*ast.StructType).Fields.List[0].Type.(*ast.StarExpr)
+			elem := star.X.(*ast.IndexExpr).Index
+			mk := &ast.FuncDecl{
+				Name: ast.NewIdent("vmcMake_" + ts.Name.Name),
+				Type: &ast.FuncType{Params: &ast.FieldList{List: []*ast.Field{{Names: []*ast.Ident{ast.NewIdent("n")}, Type: ast.NewIdent("int")}}},
+					Results: &ast.FieldList{List: []*ast.Field{{Type: ast.NewIdent(ts.Name.Name)}}}},
+				Body: &ast.BlockStmt{List: []ast.Stmt{&ast.ReturnStmt{Results: []ast.Expr{&ast.CompositeLit{Type: ast.NewIdent(ts.Name.Name),
+					Elts: []ast.Expr{call(&ast.IndexExpr{X: r.vmc("NewChan"), Index: elem}, ast.NewIdent("n"))}}}}}},
+			}
+			r.extraDecls = append(r.extraDecls, mk)
+			r.changed = true
+		}
+		if be, ok := c.Node().(*ast.BinaryExpr); ok {
+			for _, side := range []*ast.Expr{&be.X, &be.Y} {
+				if nilCmpSide[side] {
+					*side = &ast.SelectorExpr{X: *side, Sel: ast.NewIdent("Chan")}
+					r.changed = true
+				}
+			}
+		}
+		if ce, ok := c.Node().(*ast.CallExpr); ok {
+			if name, ok := namedMake[ce]; ok {
+				var size ast.Expr = &ast.BasicLit{Kind: token.INT, Value: "0"}
+				if len(ce.Args) == 2 {
+					size = ce.Args[1]
+				}
+				c.Replace(call(ast.NewIdent("vmcMake_"+name), size))
+				r.changed = true
+				return true
+			}
 		}
 		switch n := c.Node().(type) {
 		case *ast.ChanType:
@@ -672,6 +1003,8 @@ func (r *rewriter) run() bool {
 		return true
 	}
 	astutil.Apply(r.file, pre, post)
+	r.file.Decls = append(r.file.Decls, r.extraDecls...)
+	r.genResets()
 	if r.usesVmc {
 		astutil.AddImport(r.pkg.Fset, r.file, vmcPath)
 	}
@@ -765,6 +1098,73 @@ func (r *rewriter) rewriteImports() {
 			r.changed = true
 		}
 	}
+}
+
+// genResets appends an init function that registers, for every package-level variable declared
+// in this file, the statement that gives it its initial value again (see vmc.RegisterReset).
+func (r *rewriter) genResets() {
+	info := r.pkg.TypesInfo
+	order := map[*types.Var]int{}
+	for i, in := range info.InitOrder {
+		for _, v := range in.Lhs {
+			order[v] = i
+		}
+	}
+	var stmts []ast.Stmt
+	reg := func(idx int, st ast.Stmt) {
+		fl := &ast.FuncLit{Type: &ast.FuncType{Params: &ast.FieldList{}}, Body: &ast.BlockStmt{List: []ast.Stmt{st}}}
+		stmts = append(stmts, &ast.ExprStmt{X: call(r.vmc("RegisterReset"),
+			&ast.BasicLit{Kind: token.STRING, Value: strconv.Quote(r.pkg.PkgPath)},
+			&ast.BasicLit{Kind: token.INT, Value: strconv.Itoa(idx)}, fl)})
+	}
+	for _, d := range r.file.Decls {
+		gd, ok := d.(*ast.GenDecl)
+		if !ok || gd.Tok != token.VAR {
+			continue
+		}
+		for _, sp := range gd.Specs {
+			vs := sp.(*ast.ValueSpec)
+			idxOf := func(id *ast.Ident) int {
+				if v, ok := info.Defs[id].(*types.Var); ok {
+					if i, ok := order[v]; ok {
+						return i
+					}
+				}
+				return -1
+			}
+			switch {
+			case len(vs.Values) == 0:
+				for _, n := range vs.Names {
+					if n.Name != "_" {
+						reg(-1, &ast.ExprStmt{X: call(r.vmc("Zero"), &ast.UnaryExpr{Op: token.AND, X: ast.NewIdent(n.Name)})})
+					}
+				}
+			case len(vs.Values) == len(vs.Names):
+				for i, n := range vs.Names {
+					var rhs ast.Expr = vs.Values[i]
+					if vs.Type != nil {
+						rhs = &ast.CallExpr{Fun: &ast.ParenExpr{X: vs.Type}, Args: []ast.Expr{rhs}} // var x T = v: keep the conversion
+					}
+					reg(idxOf(n), &ast.AssignStmt{Lhs: []ast.Expr{ast.NewIdent(n.Name)}, Tok: token.ASSIGN, Rhs: []ast.Expr{rhs}})
+				}
+			default:
+				var lhs []ast.Expr
+				idx := -1
+				for _, n := range vs.Names {
+					lhs = append(lhs, ast.NewIdent(n.Name))
+					if i := idxOf(n); i > idx {
+						idx = i
+					}
+				}
+				reg(idx, &ast.AssignStmt{Lhs: lhs, Tok: token.ASSIGN, Rhs: vs.Values})
+			}
+		}
+	}
+	if len(stmts) == 0 {
+		return
+	}
+	r.file.Decls = append(r.file.Decls, &ast.FuncDecl{Name: ast.NewIdent("init"), Type: &ast.FuncType{Params: &ast.FieldList{}}, Body: &ast.BlockStmt{List: stmts}})
+	r.changed = true
 }
 
 func isVmcSel(e ast.Expr, name string) bool {
@@ -930,6 +1330,10 @@ func (r *rewriter) rewriteRangeMap(n *ast.RangeStmt) ast.Stmt {
 	}
 	r.nsel++
 	key := n.Key
+	if key == nil && n.Value == nil {
+		// for range m { ... }
+		return &ast.RangeStmt{Tok: token.ILLEGAL, X: call(r.vmc("SortedKeys"), r.maybeMR(n.X, n)), Body: n.Body}
+	}
 	if key == nil {
 		key = ast.NewIdent("_")
 	}
